@@ -3,13 +3,18 @@ package props
 import (
 	"bytes"
 	"crypto/sha256"
+	"encoding/hex"
+	"encoding/json"
 	"fmt"
 	"runtime"
+	"strings"
 	"sync"
 	"testing"
+	"time"
 
 	"github.com/foxglove/mcap/go/mcap"
 	"pgregory.net/rapid"
+	"verifharness/isolate"
 	"verifharness/mc"
 	"verifharness/pk"
 	"verifharness/stats"
@@ -66,6 +71,35 @@ func writeWith(w *wl.Workload, k wl.Config, mo mc.MapOrder) ([]byte, error) {
 		}
 	}
 	return buf.Bytes(), nil
+}
+
+// writeEntry runs in a worker process: it writes the workload it is sent and answers with the hash of the output.
+func writeEntry(req isolate.Req) isolate.Resp {
+	var c C13Case
+	if err := json.Unmarshal(req.Input, &c); err != nil {
+		return isolate.Resp{Text: "harness: " + err.Error()}
+	}
+	out, err := writeWith(&c.W, c.K, nil)
+	if err != nil {
+		return isolate.Resp{Text: "write: " + err.Error()}
+	}
+	h := sha256.Sum256(out)
+	return isolate.Resp{Progress: uint32(len(out)), Text: "sha256:" + hex.EncodeToString(h[:])}
+}
+
+// writeInFreshProcess has a new process write the workload before it has done anything else with the library.
+func writeInFreshProcess(c *C13Case) (string, int, error) {
+	in, err := json.Marshal(c)
+	if err != nil {
+		return "", 0, err
+	}
+	w := &isolate.Worker{}
+	defer w.Close()
+	o := w.Call(isolate.Req{Entry: entryWrite, Input: in}, 60*time.Second, 600*time.Second)
+	if o.Hang || o.Died || o.Status != 0 || !strings.HasPrefix(o.Text, "sha256:") {
+		return "", 0, fmt.Errorf("worker: hang=%v died=%v %s %s", o.Hang, o.Died, o.ExitInfo, o.Text)
+	}
+	return strings.TrimPrefix(o.Text, "sha256:"), int(o.Progress), nil
 }
 
 // sharedOptions reports whether one *WriterOptions value may be handed to several live writers: a
@@ -132,6 +166,19 @@ func checkC13(c C13Case, st *stats.Collector) error {
 		}
 		if sha256.Sum256(out) != h {
 			return pk.Failf("nondeterministic", "output differs when the same calls are repeated with maps built in another insertion order (repeat %d: %d vs %d bytes, first difference at %d)", i+1, len(out), len(ref), firstDiff(out, ref))
+		}
+	}
+	if wl.Hash(c)%3 == 0 {
+		// the output is a function of options and calls, not of what this process did before: a new process
+		// that writes this workload as its first act must produce the same bytes as this one, which has written
+		// (and read) hundreds of other files by now
+		fresh, n, err := writeInFreshProcess(&c)
+		evals++
+		if err != nil {
+			return pk.Failf("harness", "fresh-process write: %v", err)
+		}
+		if fresh != hex.EncodeToString(h[:]) {
+			return pk.Failf("nondeterministic", "a fresh process writes %d bytes with sha256 %s for these calls, this process (which has written other files before) %d bytes with %x", n, fresh, len(ref), h)
 		}
 	}
 	if c.Procs {
